@@ -30,7 +30,7 @@ ASSUMPTIONS = [
     "for non-string subscription ids only well-formedness of the frames is required",
     "LMDB backend over /verif/shim; SQL = SQLite; HTTP path = ViewEventResource.on_get rendered by falcon's media handler",
 ]
-MIN_NONTRIVIAL = {"quick": 600, "thorough": 2000}
+MIN_NONTRIVIAL = {"quick": 600, "thorough": 1500}
 REQUIRED_COUNTERS = ["frames_checked", "served.stored", "served.live", "served.http", "subids_checked"]
 SHARD_TIMEOUT = {"quick": 500, "thorough": 3000}
 SCALARS = [(0, 0xD800), (0xE000, 0x110000)]
